@@ -150,6 +150,7 @@ func (cfg *Config) Default() error {
 	}
 	cfg.ListenAddr = proxy
 	cfg.NodeAddr = node
+	cfg.NodeHTTPS = DefaultNodeHTTPS
 	cfg.LogFile = ""
 	cfg.ReadTimeout = DefaultReadTimeout
 	cfg.ReadHeaderTimeout = DefaultReadHeaderTimeout
